@@ -50,13 +50,21 @@ func Gen(class string, seed uint64, k int) *Spec {
 	s.Class = class
 	s.Seed = seed
 	s.Name = fmt.Sprintf("%s-%d-%d", class, seed, k)
-	sort.SliceStable(s.Actions, func(i, j int) bool {
-		ai, aj := s.Actions[i], s.Actions[j]
-		if ai.After > 0 || aj.After > 0 {
-			return false
+	// group = an At-based action followed by its After-chained actions; groups are
+	// ordered by the At of their head, chains stay attached
+	var groups [][]Action
+	for _, a := range s.Actions {
+		if a.After > 0 && len(groups) > 0 {
+			groups[len(groups)-1] = append(groups[len(groups)-1], a)
+		} else {
+			groups = append(groups, []Action{a})
 		}
-		return ai.At < aj.At
-	})
+	}
+	sort.SliceStable(groups, func(i, j int) bool { return groups[i][0].At < groups[j][0].At })
+	s.Actions = s.Actions[:0]
+	for _, g := range groups {
+		s.Actions = append(s.Actions, g...)
+	}
 	return s
 }
 
